@@ -161,6 +161,71 @@ def _key(exp):
                               '+'.join(sorted(exp['fields'])), exp['sig'])
 
 
+_FWD = {}
+
+
+def forwarded(raw_for):
+    """What the built-in bus hands on when one peer sends it a message (it
+    parses the message, stamps the true sender and serialises it again):
+    raw_for(destination) gives the bytes to send; returns (sender name,
+    the parsed message the recipient got, or None)."""
+    w = _FWD.get('w')
+    if w is None:
+        bw = fakes.BusWorld()
+        a, b = bw.connect(), bw.connect()
+        b.call_bus('AddMatch', 's', [''])
+        b.received()
+        w = _FWD['w'] = (bw, a, b)
+    bw, a, b = w
+    a.send_raw(raw_for(b.name))
+    a.received()
+    got = b.received()
+    return a.name, (got[0] if len(got) == 1 else None), len(got)
+
+
+def check_forwarded(res, exp, serial, raw_for, origin, rep, key):
+    """the message after one trip through the bus is still the same
+    well-formed message (sender stamped), whichever byte order it had"""
+    res.count('transitions')
+    try:
+        dest_holder = []
+
+        def mk(dest):
+            dest_holder.append(dest)
+            return raw_for(dest)
+        sender, p2, n = forwarded(mk)
+        ref = R.parse_message(raw_for(dest_holder[0]))
+        probs = []
+        if p2 is None:
+            probs.append('copies: %d messages arrived' % n)
+        else:
+            want_fields = dict(ref['fields'])
+            want_fields['sender'] = sender
+            if p2['fields'] != want_fields:
+                probs.append('header fields %r, expected %r'
+                             % (p2['fields'], want_fields))
+            if p2['flags'] != exp['flags']:
+                probs.append('flags %d, expected %d' % (p2['flags'],
+                                                        exp['flags']))
+            if p2['serial'] != serial or p2['type'] != exp['type']:
+                probs.append('serial/type %r/%r' % (p2['serial'], p2['type']))
+            if p2['body'] != ref['body']:
+                probs.append('body %r, sent as %r' % (p2['body'],
+                                                      ref['body']))
+    except R.RefError as e:
+        probs = ['not well-formed: %s' % e]
+        _FWD.clear()
+    except Exception as e:
+        probs = ['raised %r' % (e,)]
+        _FWD.clear()
+    if probs:
+        res.violation('%s/forwarded/%s/%s/%s'
+                      % (PROP, origin, probs[0].split()[0], key),
+                      '%s message %r after a trip through the built-in bus: '
+                      '%s' % (origin, rep['exp'], '; '.join(probs)), rep,
+                      size=len(key))
+
+
 def check_constructed(res, mtype, kw, exp, seen_serials):
     from txdbus import message as M
     res.count('evaluations')
@@ -238,39 +303,20 @@ def check_constructed(res, mtype, kw, exp, seen_serials):
                       'parsing its own bytes for %r: %s'
                       % (rep['exp'], '; '.join(diffs)), rep, size=len(key))
         return
-    # (c') a parsed message serialised again (what the bus does when it
-    # stamps the sender) is the same well-formed message, serial kept
-    if not hasattr(m, '_marshal'):
-        return          # (private entry point renamed: nothing to drive)
-    res.count('transitions')
-    try:
-        m.sender = ':1.77'
-        m._marshal(False)
-        p2 = R.parse_message(m.rawMessage)
-        want_fields = dict(exp['fields'])
-        want_fields['sender'] = ':1.77'
-        if exp['sig']:
-            want_fields['signature'] = exp['sig']
-        probs = []
-        if p2['fields'] != want_fields:
-            probs.append('header fields %r, expected %r'
-                         % (p2['fields'], want_fields))
-        if p2['flags'] != exp['flags']:
-            probs.append('flags %d, expected %d' % (p2['flags'],
-                                                    exp['flags']))
-        if p2['serial'] != p['serial'] or p2['type'] != exp['type']:
-            probs.append('serial/type %r/%r' % (p2['serial'], p2['type']))
-        if p2['raw_body'] != p['raw_body']:
-            probs.append('body bytes changed')
-    except R.RefError as e:
-        probs = ['not well-formed: %s' % e]
-    except Exception as e:
-        probs = ['raised %r' % (e,)]
-    if probs:
-        res.violation('%s/reserialise/%s/%s' % (PROP, probs[0].split()[0],
-                                                key),
-                      'parsing and serialising %r again: %s'
-                      % (rep['exp'], '; '.join(probs)), rep, size=len(key))
+    # (c') the same message after a trip through the built-in bus (which
+    # parses it, stamps the sender and serialises it again)
+    def raw_for(dest):
+        f = dict(exp['fields'])
+        if exp['type'] != 4 or 'destination' in f:
+            f['destination'] = dest
+        return R.encode_message(exp['type'], p['serial'], f, exp['sig'],
+                                exp['body'], flags=exp['flags'])
+    if exp['type'] == 4 and 'destination' not in exp['fields']:
+        # a broadcast: the library's own bytes go in unchanged
+        check_forwarded(res, exp, p['serial'], lambda dest: raw, 'own', rep,
+                        key)
+    else:
+        check_forwarded(res, exp, p['serial'], raw_for, 'own', rep, key)
 
 
 def field_orders(names, quick):
@@ -315,45 +361,21 @@ def check_foreign(res, exp, serial, little, order, extra):
                       % (little, order, rep['extra'], rep['exp'],
                          '; '.join(diffs)), rep, size=len(key) + len(extra))
     res.outcome(('foreign', little, len(order), len(extra)))
-    if diffs or extra or not hasattr(m, '_marshal'):
+    if diffs or extra:
         return
-    # the parsed foreign message serialised again (the bus does this to every
-    # message it forwards): still the same well-formed message, whichever
-    # byte order it arrived in
-    res.count('transitions')
-    try:
-        ref = R.parse_message(raw)
-        m.sender = ':1.77'
-        m._marshal(False)
-        p2 = R.parse_message(m.rawMessage)
-        want_fields = dict(exp['fields'])
-        want_fields['sender'] = ':1.77'
-        if exp['sig']:
-            want_fields['signature'] = exp['sig']
-        probs = []
-        if p2['fields'] != want_fields:
-            probs.append('header fields %r, expected %r'
-                         % (p2['fields'], want_fields))
-        if p2['flags'] != exp['flags']:
-            probs.append('flags %d, expected %d' % (p2['flags'],
-                                                    exp['flags']))
-        if p2['serial'] != serial or p2['type'] != exp['type']:
-            probs.append('serial/type %r/%r' % (p2['serial'], p2['type']))
-        if p2['body_plain'] != ref['body_plain']:
-            probs.append('body %r, arrived as %r' % (p2['body_plain'],
-                                                     ref['body_plain']))
-    except R.RefError as e:
-        probs = ['not well-formed: %s' % e]
-    except Exception as e:
-        probs = ['raised %r' % (e,)]
-    if probs:
-        res.violation('%s/reserialise-foreign/%s/%s/%s'
-                      % (PROP, 'little' if little else 'big',
-                         probs[0].split()[0], key),
-                      'a %s-endian encoding of %r parsed and serialised '
-                      'again: %s' % ('little' if little else 'big',
-                                     rep['exp'], '; '.join(probs)), rep,
-                      size=len(key))
+
+    def raw_for(dest):
+        f = dict(exp['fields'])
+        if exp['type'] != 4 or 'destination' in f:
+            f['destination'] = dest
+        o = [n for n in order if n in f or n == 'signature']
+        if 'destination' in f and 'destination' not in o:
+            o.append('destination')
+        return R.encode_message(exp['type'], serial, f, exp['sig'],
+                                exp['body'], little=little,
+                                flags=exp['flags'], field_order=o)
+    check_forwarded(res, exp, serial, raw_for,
+                    'little-endian' if little else 'big-endian', rep, key)
 
 
 def _task(task):
@@ -489,6 +511,23 @@ def _task_limits(_):
             'interface': 'validateInterfaceName',
             'destination': 'validateBusName',
             'error_name': 'validateErrorName'}
+    # plus every one-character mutation (insert at the front, in the middle,
+    # at the end; replace the last character) of a valid name with a
+    # character from the classes names are built from or commonly confused
+    # with, kept when the reference grammar rejects the result
+    VALID = {'path': '/ab/c', 'member': 'Mem', 'interface': 'ab.cd',
+             'destination': 'ab.cd', 'error_name': 'ab.cd'}
+    for slot, base in VALID.items():
+        extra = []
+        for ch in ('\n', '\r', ' ', '\0', '.', '-', ':', '/', '\xe9', '1',
+                   '\t', '$'):
+            mid = len(base) // 2
+            for m in (ch + base, base[:mid] + ch + base[mid:], base + ch,
+                      base[:-1] + ch):
+                if not G.VALIDATORS[KIND[slot]](m) and m not in extra \
+                        and m not in INVALID[slot]:
+                    extra.append(m)
+        INVALID[slot] = tuple(INVALID[slot]) + tuple(extra)
     for slot, vals in INVALID.items():
         for v in vals:
             if G.VALIDATORS[KIND[slot]](v):
